@@ -727,6 +727,13 @@ fn exec_c<C: Suite>(scen: &Scenario) -> Exec {
             return Exec::Violation(v, rep);
         }
     }
+    // cross-suite payloads first: they need no assumption about the header layout (the header-fault cases below do, and report a
+    // harness error when the layout is not the one they were written for)
+    if let Some(v) = cross_suite::<C>(scen, &mut sw) {
+        let decodes = sw.decodes;
+        rep.evaluations += decodes;
+        return Exec::Violation(v, rep);
+    }
     // ---- composite types: round trips, header faults, cross-suite ------------------------------------------
     macro_rules! comp {
         ($v:expr, $tag:expr, $hdr:expr) => {
@@ -819,11 +826,6 @@ fn exec_c<C: Suite>(scen: &Scenario) -> Exec {
     if !seen_r1s || !seen_r2s {
         // worlds with dealer keys and dealer refresh have no DKG state: fine, other runs cover it
         sw.rep.probe("no_dkg_state_in_world");
-    }
-    if let Some(v) = cross_suite::<C>(scen, &mut sw) {
-        let decodes = sw.decodes;
-        rep.evaluations += decodes;
-        return Exec::Violation(v, rep);
     }
     // ---- every envelope and stored slot of the run decodes to something that re-encodes identically --------
     for ((_, kind, _, _), b) in &sim.sent {
